@@ -51,7 +51,7 @@ CLASSES: Dict[str, Any] = dict(
     KwOnly=excat.KwOnly, NoArgsKept=excat.NoArgsKept, WithState=excat.WithState, DerivedKeyErr=excat.DerivedKeyErr, PickyInit=excat.PickyInit, ValueInit=excat.ValueInit,
     ValueEq=excat.ValueEq, DataErr=excat.DataErr, FalsyErr=excat.FalsyErr, MixErr=excat.MixErr, LocMix=excat.make_local_mixin(),
     Loc=excat.make_local(), LocB=excat.make_local_base(), Dyn=excat.Dyn, DynHidden=excat.DynHidden, DynShadow=excat.DynShadow, DynNoModule=excat.DynNoModule,
-    BadReprExc=excat.BadReprExc, TqTimeout=TaskiqResultTimeoutError, NoResult=NoResultError, Security=SecurityError, SendTask=SendTaskError,
+    CustomModErr=excat.CustomModErr, BadReprExc=excat.BadReprExc, TqTimeout=TaskiqResultTimeoutError, NoResult=NoResultError, Security=SecurityError, SendTask=SendTaskError,
 )
 
 JSONV = st.recursive(
